@@ -1141,8 +1141,10 @@ class Process(StateMachine, persistence.Savable, metaclass=ProcessStateMachineMe
             interrupt_exception = process_states.PauseInterruption(msg_text)
             self._set_interrupt_action_from_exception(interrupt_exception)
             self._pausing = self._interrupt_action
-            # Try to interrupt the state
-            self._state.interrupt(interrupt_exception)
+            # Try to interrupt the state (while transitioning there is nothing to interrupt, the action is enacted right
+            # after the transition)
+            if not self._transitioning:
+                self._state.interrupt(interrupt_exception)
             return cast(futures.CancellableAction, self._interrupt_action)
 
         msg = MessageBuilder.pause(msg_text)
@@ -1271,7 +1273,8 @@ class Process(StateMachine, persistence.Savable, metaclass=ProcessStateMachineMe
             interrupt_exception = process_states.KillInterruption(msg_text)
             self._set_interrupt_action_from_exception(interrupt_exception)
             self._killing = self._interrupt_action
-            self._state.interrupt(interrupt_exception)
+            if not self._transitioning:
+                self._state.interrupt(interrupt_exception)
             return cast(futures.CancellableAction, self._interrupt_action)
 
         msg = MessageBuilder.kill(msg_text)
